@@ -138,6 +138,8 @@ type FakeTarget struct {
 	// Handler, if set, serves non-probe requests; return false to close the connection.
 	Handler     func(ft *FakeTarget, c net.Conn, br *bufio.Reader, req *http.Request, body []byte) bool
 	RefuseProxy bool
+	// RawServe, if set, takes over whole proxied connections (no HTTP parsing by the harness).
+	RawServe func(ft *FakeTarget, c net.Conn)
 
 	mu     sync.Mutex
 	nprobe int
@@ -210,6 +212,9 @@ type World struct {
 	seq        int
 	LogLevel   slog.Level
 	extra      []*Proxy
+	// DialAttempts counts connection attempts made through http.DefaultClient, by address
+	// (health probes and anything else that uses the default client, e.g. an ACME client).
+	DialAttempts map[string]int
 }
 
 type WorldOpt struct {
@@ -455,6 +460,10 @@ func (w *World) isDone() bool {
 func (w *World) dialProbe(ctx context.Context, network, addr string) (net.Conn, error) {
 	w.mu.Lock()
 	ft := w.Targets[addr]
+	if w.DialAttempts == nil {
+		w.DialAttempts = map[string]int{}
+	}
+	w.DialAttempts[addr]++
 	w.mu.Unlock()
 	if ft == nil || w.isDone() {
 		return nil, refusedErr{addr}
@@ -487,6 +496,10 @@ func (w *World) dialProxy(ctx context.Context, network, addr string) (net.Conn, 
 		return nil, refusedErr{addr}
 	}
 	c, s := w.pipe("10.0.0.1")
+	if ft.RawServe != nil {
+		go func() { defer s.Close(); ft.RawServe(ft, s) }()
+		return c, nil
+	}
 	go ft.serve(s)
 	return c, nil
 }
